@@ -3,7 +3,7 @@
    type, ConfigSchema/MapConfigSchema.serialize, config._format). *)
 From Coq Require Import ZArith List Bool.
 From Common Require Import Res Str.
-From Config Require Import Escape Proofs_Escape Types Schema Spec_C12 Serialize Proofs_Serialize Proofs_List.
+From Config Require Import Escape Proofs_Escape Types Schema Spec_C12 Serialize Proofs_Serialize Proofs_List Proofs_Pair.
 Import ListNotations.
 Open Scope Z_scope.
 
@@ -30,8 +30,8 @@ Print Assumptions C13_strip_idempotent.
    to the same value -- for all raw texts, all oracle behaviours satisfying
    [str_oracles_ok] (int(str(z)) = z, float(repr(f)) = f, no backslash in either).
    Strings may contain backslashes, tabs and newlines.  Excluded: Boolean None (known
-   finding, refuted below).  Lists of scalars: next theorem.  Hostname and Pair are covered
-   by correspondence and the type_roundtrip monitor only: hence _partial. *)
+   finding, refuted below).  Lists of scalars and Pairs: next theorems.  Hostname and deeper
+   compositions are covered by correspondence and the type_roundtrip monitor only. *)
 Theorem C13_type_roundtrip_partial :
   forall so o, str_oracles_ok so o ->
   forall t raw v,
@@ -62,6 +62,60 @@ Example C13_list_hypothesis_satisfiable :
   items_plain law_so law_o (TString false None None) [VStr [97; 98]; VStr [99; 32; 100]].
 Proof. exact ex_items_plain. Qed.
 Print Assumptions C13_list_hypothesis_satisfiable.
+
+(* T2 for Pair.  General form: if both halves round-trip through an encode image
+   ([half_ok]: the half serializes to encode x and encode x deserializes back to it), the
+   separator is non-empty and backslash-free, and the joined text x1 sep x2 is unambiguous
+   (stripped, splits at the first separator into exactly (x1, x2); for the optional-pair
+   shortcut: x1 alone contains no separator), then the pair round-trips.  The halves may
+   contain backslashes, tabs and newlines: this is where the model's re-encode step
+   (Pair.deserialize calling encode() on each half before delegating) is needed. *)
+Theorem C13_pair_roundtrip_partial :
+  forall so o opt optpair sep ta tb a b x1 x2,
+    half_ok so o ta a x1 -> half_ok so o tb b x2 ->
+    sep <> [] -> ~ In BS sep ->
+    strip (x1 ++ sep ++ x2) = x1 ++ sep ++ x2 ->
+    split_once sep (x1 ++ sep ++ x2) = Some (x1, x2) ->
+    (optpair = true -> encode x1 = encode x2 ->
+     x1 <> [] /\ strip x1 = x1 /\ split_once sep x1 = None) ->
+    exists s, serialize so o false (TPair opt optpair sep ta tb) (VPair a b) = SStr s
+              /\ deserialize o (TPair opt optpair sep ta tb) s = Ok (VPair a b).
+Proof. exact pair_roundtrip_lemma. Qed.
+Print Assumptions C13_pair_roundtrip_partial.
+
+(* Instance: Pair of String/Secret halves (any optional/choices/transformer): every pair in
+   the range of deserialize with an unambiguous joined text round-trips. *)
+Theorem C13_pair_of_strings_roundtrip_partial :
+  forall so o, str_oracles_ok so o ->
+  forall opt optpair sep ta tb raw a b,
+    stringish ta = true -> stringish tb = true ->
+    deserialize o (TPair opt optpair sep ta tb) raw = Ok (VPair a b) ->
+    sep <> [] -> ~ In BS sep ->
+    let x1 := text_of a in let x2 := text_of b in
+    strip (x1 ++ sep ++ x2) = x1 ++ sep ++ x2 ->
+    split_once sep (x1 ++ sep ++ x2) = Some (x1, x2) ->
+    (optpair = true -> encode x1 = encode x2 ->
+     x1 <> [] /\ strip x1 = x1 /\ split_once sep x1 = None) ->
+    exists s, serialize so o false (TPair opt optpair sep ta tb) (VPair a b) = SStr s
+              /\ deserialize o (TPair opt optpair sep ta tb) s = Ok (VPair a b).
+Proof. exact pair_of_strings_roundtrip. Qed.
+Print Assumptions C13_pair_of_strings_roundtrip_partial.
+
+(* Without the re-encode step the half "C\n" (backslash, n) is unescaped twice. *)
+Theorem C13_pair_without_reencode_refuted :
+  exists so o sep t v s,
+    serialize so o false (TPair false false sep t t) v = SStr s
+    /\ deserialize o (TPair false false sep t t) s = Ok v
+    /\ pair_no_reencode o sep t t s <> Ok v.
+Proof. exact pair_without_reencode_refuted. Qed.
+Print Assumptions C13_pair_without_reencode_refuted.
+
+Example C13_pair_hypotheses_satisfiable :
+  let x1 := [67; 58; 92; 110; 101; 119] in let x2 := [120] in let sep := [124] in
+  sep <> [] /\ ~ In BS sep /\ strip (x1 ++ sep ++ x2) = x1 ++ sep ++ x2
+  /\ split_once sep (x1 ++ sep ++ x2) = Some (x1, x2).
+Proof. exact ex_pair_hyps. Qed.
+Print Assumptions C13_pair_hypotheses_satisfiable.
 
 Theorem C13_boolean_none_roundtrip_refuted :
   exists so o raw s, deserialize o (TBoolean true) raw = Ok VNone
